@@ -750,3 +750,200 @@ Theorem C01_sstr_chunk_roundtrip :
        decode_sstr lim (sstr_payload l ++ rest) = Ok (l, rest).
 Proof. exact sstr_chunk_roundtrip. Qed.
 
+
+(* ==== the forest, reader side (Proofs/BinFinish.v): prnt_links builds, for any row list over registered referents, the per-parent
+   child lists in row order; finish (breadth-first, with the fuel it supplies) reconstructs every forest whose shape the state
+   describes: each instance once, parents as labels, root order and sibling order preserved (Definition reconstructs); labels are
+   consecutive and distinct for every state the chunk loop reaches; for the writer's post-order rows the per-parent subsequence is
+   the original sibling order, so the writer's PRNT rows give back the same ordered forest *)
+From RbxVerif Require Import BinFinish.
+Open Scope N_scope.
+
+Theorem C01_prnt_links_spec :
+  forall (pairs : list (Z * Z)) (insts : list (Z * dinst)) (roots : list Z),
+       (forall c par : Z, In (c, par) pairs -> par = (-1)%Z \/ zfind par insts <> None) ->
+       exists insts' : list (Z * dinst),
+         prnt_links insts roots pairs = Ok (insts', roots ++ rows_of (-1) pairs) /\
+         (forall k : Z,
+          zfind k insts' =
+          match zfind k insts with
+          | Some i => Some (add_children i (rows_to k pairs))
+          | None => None
+          end).
+Proof. exact prnt_links_spec. Qed.
+
+Theorem C01_prnt_links_unknown :
+  forall (pre : list (Z * Z)) (insts : list (Z * dinst)) (roots : list Z) (c par : Z)
+         (post : list (Z * Z)),
+       (forall c' par' : Z, In (c', par') pre -> par' = (-1)%Z \/ zfind par' insts <> None) ->
+       par <> (-1)%Z ->
+       zfind par insts = None -> prnt_links insts roots (pre ++ (c, par) :: post) = Err E_UNKNOWN_REFERENT.
+Proof. exact prnt_links_unknown. Qed.
+
+Theorem C01_prnt_links_never_panics :
+  forall (pairs : list (Z * Z)) (insts : list (Z * dinst)) (roots : list Z),
+       prnt_links insts roots pairs <> Panic /\ prnt_links insts roots pairs <> OutOfFuel.
+Proof. exact prnt_links_never_panics. Qed.
+
+Theorem C01_finish_forest :
+  forall (D : Z -> dinst) (p : dec_params) (sstr : list bytes) (types : list (N * dtinfo))
+         (insts : list (Z * dinst)) (roots : list Z) (next : N) (F : list ztree),
+       Forall (shaped D) F ->
+       NoDup (zfrefs F) ->
+       (forall k : Z, In k (zfrefs F) -> zfind k insts = Some (D k)) ->
+       roots = List.map zroot F ->
+       finish p
+         {| ds_sstr := sstr; ds_types := types; ds_insts := insts; ds_roots := roots; ds_next := next |} =
+       Ok (uid_pass D p [] (List.map qproj (bfs_all D F))).
+Proof. exact finish_forest. Qed.
+
+Theorem C01_finish_reconstructs :
+  forall (p : dec_params) (sstr : list bytes) (types : list (N * dtinfo)) (insts : list (Z * dinst))
+         (roots : list Z) (next : N) (F : list ztree),
+       let D := dinst_of insts in
+       Forall (shaped D) F ->
+       NoDup (List.map (lab D) (zfrefs F)) ->
+       (forall k : Z, In k (zfrefs F) -> zfind k insts <> None /\ lab D k <> 0) ->
+       roots = List.map zroot F ->
+       exists out : cdom,
+         finish p
+           {| ds_sstr := sstr; ds_types := types; ds_insts := insts; ds_roots := roots; ds_next := next |} =
+         Ok out /\ reconstructs D p F out.
+Proof. exact finish_reconstructs. Qed.
+
+Theorem C01_bfs_all_roots_first :
+  forall (D : Z -> dinst) (F : list ztree),
+       bfs_all D F =
+       List.map (fun t : ztree => (t, 0)) F ++ bfsP D (zfsize F - Datatypes.length F) (flat_map (qkids D) F).
+Proof. exact bfs_all_roots_first. Qed.
+
+Theorem C01_bfs_all_perm :
+  forall (D : Z -> dinst) (F : list ztree),
+       Permutation.Permutation (List.map fst (bfs_all D F)) (zfsubtrees F).
+Proof. exact bfs_all_perm. Qed.
+
+Theorem C01_built_parent :
+  forall (D : Z -> dinst) (p : dec_params) (F : list ztree) (i : inst),
+       In i (built D p F) ->
+       (exists t : ztree, In t F /\ i_ref i = lab D (zroot t) /\ i_parent i = 0) \/
+       (exists t' c : ztree,
+          In t' (zfsubtrees F) /\
+          In c (zsubs t') /\ i_ref i = lab D (zroot c) /\ i_parent i = lab D (zroot t')).
+Proof. exact built_parent. Qed.
+
+Theorem C01_built_children :
+  forall (D : Z -> dinst) (p : dec_params) (F : list ztree) (t0 : ztree),
+       NoDup (List.map (lab D) (zfrefs F)) ->
+       (forall k : Z, In k (zfrefs F) -> lab D k <> 0) ->
+       In t0 (zfsubtrees F) ->
+       children_of (built D p F) (lab D (zroot t0)) = List.map (fun c : ztree => lab D (zroot c)) (zsubs t0).
+Proof. exact built_children. Qed.
+
+Theorem C01_built_roots :
+  forall (D : Z -> dinst) (p : dec_params) (F : list ztree),
+       (forall k : Z, In k (zfrefs F) -> lab D k <> 0) ->
+       children_of (built D p F) 0 = List.map (fun t : ztree => lab D (zroot t)) F.
+Proof. exact built_roots. Qed.
+
+Theorem C01_prnt_then_finish :
+  forall (p : dec_params) (sstr : list bytes) (types : list (N * dtinfo)) (insts0 : list (Z * dinst))
+         (next : N) (pairs : list (Z * Z)) (F : list ztree),
+       let D := dinst_of insts0 in
+       (forall c par : Z, In (c, par) pairs -> par = (-1)%Z \/ zfind par insts0 <> None) ->
+       (forall k : Z,
+        In k (zfrefs F) -> exists i : dinst, zfind k insts0 = Some i /\ di_children i = [] /\ di_label i <> 0) ->
+       NoDup (List.map (lab D) (zfrefs F)) ->
+       rows_describe pairs F ->
+       exists insts' : list (Z * dinst),
+         prnt_links insts0 [] pairs = Ok (insts', List.map zroot F) /\
+         (exists out : cdom,
+            finish p
+              {|
+                ds_sstr := sstr;
+                ds_types := types;
+                ds_insts := insts';
+                ds_roots := List.map zroot F;
+                ds_next := next
+              |} = Ok out /\ reconstructs D p F out).
+Proof. exact prnt_then_finish. Qed.
+
+Theorem C01_post_rows_describe :
+  forall F : list ztree,
+       NoDup (zfrefs F) -> ~ In (-1)%Z (zfrefs F) -> rows_describe (fpost_rows (-1) F) F.
+Proof. exact post_rows_describe. Qed.
+
+Theorem C01_post_rows_then_finish :
+  forall (p : dec_params) (sstr : list bytes) (types : list (N * dtinfo)) (insts0 : list (Z * dinst))
+         (next : N) (F : list ztree),
+       let D := dinst_of insts0 in
+       (forall k : Z,
+        In k (zfrefs F) -> exists i : dinst, zfind k insts0 = Some i /\ di_children i = [] /\ di_label i <> 0) ->
+       NoDup (List.map (lab D) (zfrefs F)) ->
+       ~ In (-1)%Z (zfrefs F) ->
+       exists insts' : list (Z * dinst),
+         prnt_links insts0 [] (fpost_rows (-1) F) = Ok (insts', List.map zroot F) /\
+         (exists out : cdom,
+            finish p
+              {|
+                ds_sstr := sstr;
+                ds_types := types;
+                ds_insts := insts';
+                ds_roots := List.map zroot F;
+                ds_next := next
+              |} = Ok out /\ reconstructs D p F out).
+Proof. exact post_rows_then_finish. Qed.
+
+Theorem C01_WriterRows_writer_rows_then_finish :
+  forall (db : db) (dom : cdom) (ts : list tree) (fuel : nat) (st' : ser_state) 
+         (f pz : N -> Z) (p : dec_params) (sstr : list bytes) (types : list (N * dtinfo))
+         (insts0 : list (Z * dinst)) (next : N),
+       Forall (agrees (children_of dom)) ts ->
+       NoDup (flat_map refs ts) ->
+       add_loop fuel db dom true (List.map root ts) None ser_state0 = Ok st' ->
+       Forall (WriterRows.parents_ok f pz (-1)) ts ->
+       ~ In (-1)%Z (List.map f (flat_map refs ts)) ->
+       let F := List.map (WriterRows.ztree_of f) ts in
+       let D := dinst_of insts0 in
+       (forall k : Z,
+        In k (zfrefs F) -> exists i : dinst, zfind k insts0 = Some i /\ di_children i = [] /\ di_label i <> 0) ->
+       NoDup (List.map (lab D) (zfrefs F)) ->
+       exists insts' : list (Z * dinst),
+         prnt_links insts0 [] (List.map (fun r : N => (f r, pz r)) (ss_relevant st')) =
+         Ok (insts', List.map zroot F) /\
+         (exists out : cdom,
+            finish p
+              {|
+                ds_sstr := sstr;
+                ds_types := types;
+                ds_insts := insts';
+                ds_roots := List.map zroot F;
+                ds_next := next
+              |} = Ok out /\ reconstructs D p F out).
+Proof. exact WriterRows.writer_rows_then_finish. Qed.
+
+Theorem C01_decoded_state_labels :
+  forall (d : db) (p : dec_params) (fuel : nat) (b : bytes) (st : dstate),
+       chunk_loop fuel d p dstate0 b = Ok st -> lab_inv st.
+Proof. exact decoded_state_labels. Qed.
+
+Theorem C01_labels_ok_hyp :
+  forall (insts : list (Z * dinst)) (next : N) (ks : list Z),
+       labels_ok insts next ->
+       NoDup ks ->
+       (forall k : Z, In k ks -> zfind k insts <> None) ->
+       NoDup (List.map (lab (dinst_of insts)) ks) /\ (forall k : Z, In k ks -> lab (dinst_of insts) k <> 0).
+Proof. exact labels_ok_hyp. Qed.
+
+Theorem C01_decode_file_forest :
+  forall (d : db) (p : dec_params) (b : bytes) (hdr : N * N) (rest : bytes) 
+         (st : dstate) (F : list ztree),
+       decode_header (dp_lim p) b = Ok (hdr, rest) ->
+       chunk_loop (S (Datatypes.length rest)) d p dstate0 rest = Ok st ->
+       let D := dinst_of (ds_insts st) in
+       Forall (shaped D) F ->
+       NoDup (zfrefs F) ->
+       (forall k : Z, In k (zfrefs F) -> zfind k (ds_insts st) <> None) ->
+       ds_roots st = List.map zroot F ->
+       exists out : cdom, decode_file d p b = Ok out /\ reconstructs D p F out.
+Proof. exact decode_file_forest. Qed.
+
